@@ -19,7 +19,7 @@ fn check(r: &ExecResult, pol: Pol, cap: usize, parked: bool, via_dispatcher: boo
     // never waits on the queue
     for rec in &r.log {
         if let Ev::SendWouldBlock { ch } = rec.ev {
-            if elem_kind(r.chans[ch as usize].elem) == "dispatch"
+            if dispatch_chans(r).contains(&ch)
                 && !matches!(r.log.iter().find(|x| x.task == rec.task), None)
                 && r.task_names[rec.task as usize].1 != verif_rt::Role::Internal
             {
